@@ -11,6 +11,10 @@ def _make(rng, tif, convertible=False, scale=1):
     for _ in range(50):
         lay = glis.random_layout(rng, allow_be=False)
         lay = glis.Layout(lay.pr_len, lay.rec_num, lay.file_num, lay.checksum, tif)
+        # only with TIF markers: without them a reader cannot tell padding from the next record (the repository calls it prohibited)
+        padded = not convertible and tif is not None and rng.random() < 0.2
+        if padded:
+            lay.pad_modulo = rng.choice([2, 4])      # physical records padded with nulls to an even / 4 byte file position
         data, fm = glis.random_file(rng, allow_be=False, two_files_p=0.2 if scale == 1 else 0.9, layout=lay,
                                     concurrent_p=0.0 if convertible else 0.15)   # normal + alternate data in one logical file
         # the property excludes TIF-marked files whose first physical record is exactly 276 bytes (they share the BIT signature)
@@ -23,7 +27,7 @@ def _make(rng, tif, convertible=False, scale=1):
     expect = {None: 'LIS', 'le': 'LISt', 'be': 'LIStr'}[fm.layout.tif]
     v = Valid(data, expect, dict(fm.layout.describe(), records=len(fm.records), logpasses=[lp.total for lp in fm.logpasses]),
               nontrivial=fm.layout.pr_len < 4000 or tif is not None,
-              classes=['tif' if tif else 'plain', 'small-pr' if fm.layout.pr_len < 400 else 'large-pr'],
+              classes=['tif' if tif else 'plain', 'small-pr' if fm.layout.pr_len < 400 else 'large-pr'] + (['padded-to-%d' % lay.pad_modulo] if padded else []),
               boundaries=bounds, regen=lambda rng2: _make(rng2, tif, convertible, scale=10))
     v.expect_las = None
     v.model = fm
